@@ -3,6 +3,7 @@ package mon
 import (
 	"bytes"
 	"fmt"
+	"path"
 	"sort"
 	"strings"
 
@@ -57,8 +58,9 @@ func ModelAdd(pre *sandbox.Snap, args []string) *AddModel {
 			m.ArgClasses = append(m.ArgClasses, "link-to-directory-or-nowhere")
 			continue
 		}
-		if strings.HasPrefix(a, "/") && !ExistsOnDisk(pre, c) {
-			// an absolute spelling of something that is not on disk: outside the domain
+		if (strings.HasPrefix(a, "/") || strings.HasPrefix(path.Clean(a), "../w")) && !ExistsOnDisk(pre, c) {
+			// an absolute or through-the-parent spelling of something that is not on disk (add understands such
+			// spellings through the file system only): outside the domain
 			m.DomainOK = false
 			m.ArgClasses = append(m.ArgClasses, "absolute-missing")
 			continue
